@@ -242,6 +242,14 @@ class Ops(Suite):
             res["out_mapping"] = [int(om[i]) for i in range(len(om))] if isinstance(om, dict) else [int(v) for v in om]
         if k == "subtree" and op["n"] == 0 and case["tree"]["types"][0] == 1:
             res["neurites"] = [[float(v) for v in s.r()] for s in t.get_neurites()]
+            res["dendrites"] = [[float(v) for v in s.r()] for s in t.get_dendrites()]
+        if k == "cuttype":
+            from swcgeom.core.tree_utils import is_binary_tree
+            from swcgeom.transforms import CutAxonTree, CutDendriteTree
+
+            res["axon_same"] = bool(np.array_equal(CutAxonTree()(t).r(), CutByType(2)(t).r()))
+            res["dend_same"] = bool(np.array_equal(CutDendriteTree()(t).r(), CutByType(3)(t).r()))
+            res["binary"] = [bool(is_binary_tree(t)), bool(is_binary_tree(t, exclude_soma=False))]
         res.update(extra)
         return res
 
@@ -315,6 +323,19 @@ class Ops(Suite):
             got = [sorted(int(round(v * 8)) - 1 for v in s) for s in res["neurites"]]
             if sorted(want) != sorted(got):
                 out.append(("neurites", f"get_neurites gives {got}, subtrees of the root's children are {want}"))
+        if "dendrites" in res:
+            kids = kids_of(t["pids"])
+            want = [sorted(desc(kids, c)) for c in kids.get(0, []) if t["types"][c] in (3, 4)]
+            got = [sorted(int(round(v * 8)) - 1 for v in s_) for s_ in res["dendrites"]]
+            if sorted(want) != sorted(got):
+                out.append(("dendrites", f"get_dendrites gives {got}, subtrees of the root's dendrite-typed children are {want}"))
+        if res.get("axon_same") is False or res.get("dend_same") is False:
+            out.append(("cuttype-kept", f"{what}: CutAxonTree / CutDendriteTree differ from CutByType(2) / CutByType(3)"))
+        if "binary" in res:
+            kids = kids_of(t["pids"])
+            w1 = all(len(v) <= 2 for k_, v in kids.items() if k_ not in (-1, 0)); w2 = all(len(v) <= 2 for k_, v in kids.items() if k_ != -1)
+            if res["binary"] != [w1, w2]:
+                out.append(("is-binary-tree", f"is_binary_tree = {res['binary']} (root exempt / not), child counts say {[w1, w2]} (pids={t['pids']})"))
         if not res["input_unchanged"]:
             out.append((f"{op['op']}-mutates-input", f"{what} modified its input"))
         return out[:3]
